@@ -89,6 +89,10 @@ POSITIONS = [
     ("show_term_oldagg", "#show f(X) : x(X), 1 { t(X) }.", False, False, None, "tx"),
     ("show_term_dneg", "#show f(X) : x(X), not not t(X).", False, False, None, "tx"),
     ("show_term_is_t", "#show t(X) : x(X).", False, False, None, "x"),
+    ("show_term_pool", "#show f(X) : t(X;X+1).", False, False, None, True),
+    ("show_term_pool_cond", "#show f : x(X) : t(X;1).", False, False, None, "tx"),
+    ("show_term_pool_agg", "#show f(X) : x(X), 1 { t(X;2) }.", False, False, None, "tx"),
+    ("show_term_is_t_pool", "#show t(X;1) : x(X).", False, False, None, "x"),
     ("show_nothing", "#show.", False, False, None, False),
     ("external", "#external t(X) : x(X).", False, False, None, False),
     ("project_sig", "#project t/1.", False, False, None, False),
